@@ -309,6 +309,7 @@ type c13DocInfo struct {
 	Hist   []c13DocEnt
 	Active []uint64
 	HasAct bool
+	Seq    uint64 // current sequence of the document (classification of failures only; not part of the Coq snapshot)
 }
 type c13Snap struct {
 	Cached uint64
@@ -493,6 +494,24 @@ func (e *c13Env) rawPrinc(user bool, name string) *c13RawPrinc {
 		return nil
 	}
 	return &p
+}
+
+// persisted invalidation sequences: user channels, user roles, then the channels of every live role
+func (e *c13Env) invalSeqs() []uint64 {
+	var out []uint64
+	if u := e.rawPrinc(true, "u"); u != nil {
+		out = append(out, u.ChannelInvalSeq, u.RoleInvalSeq)
+	} else {
+		out = append(out, 0, 0)
+	}
+	for r := 1; r <= c13NRoles; r++ {
+		if p := e.rawPrinc(false, c13RoleName(r)); p != nil && !p.Deleted {
+			out = append(out, p.ChannelInvalSeq)
+		} else {
+			out = append(out, 0)
+		}
+	}
+	return out
 }
 
 // run one mutating operation on the real code; tr is consulted for the current revision
@@ -713,7 +732,7 @@ func (e *c13Env) snapshot(usr auth.User, tr *c13Truth, mon func(monitor, sig, de
 		if err != nil {
 			return nil, err
 		}
-		info := c13DocInfo{ID: uint64(i)}
+		info := c13DocInfo{ID: uint64(i), Seq: sd.Sequence}
 		for _, ent := range append(append([]ChannelSetEntry{}, sd.ChannelSet...), sd.ChannelSetHistory...) {
 			id, ok := c13ChanID(ent.Name)
 			if !ok {
@@ -790,6 +809,7 @@ type c13PullRec struct {
 }
 
 type c13Result struct {
+	obs    []string // per pull: (snapshot, rows) as a Coq term
 	fails  []c13Failure
 	pulls  []c13PullRec
 	cases  []c13CoqCase
@@ -832,6 +852,10 @@ func c13Run(t *testing.T, ops []c13Op, emit bool) *c13Result {
 	client := c13Client{}
 	since := SequenceID{}
 	var prevHeld map[int]bool
+	// root-cause bookkeeping for the end-to-end monitor
+	type jump struct{ T, S uint64 }
+	var jumps []jump                    // a page ended with a revocation row whose token is printed without its trigger
+	skippedRemoval := map[uint64]int{} // document -> request at which a back-fill dropped its removal / tombstone entry
 	sawRevoked, sawBackfill := false, false
 	for i, op := range ops {
 		if op.Kind != "pull" {
@@ -857,7 +881,9 @@ func c13Run(t *testing.T, ops []c13Op, emit bool) *c13Result {
 				continue
 			}
 			var sdBefore *SyncData
+			var invBefore []uint64
 			if op.Kind == "put" || op.Kind == "del" {
+				invBefore = e.invalSeqs()
 				if d := tr.docs[op.Doc]; d != nil && d.exists {
 					if sd, err := e.col.GetDocSyncData(e.ctx, c13DocName(op.Doc)); err == nil {
 						sdBefore = &sd
@@ -868,6 +894,15 @@ func c13Run(t *testing.T, ops []c13Op, emit bool) *c13Result {
 			if err == nil && rev != "" && emit {
 				if sdAfter, err2 := e.col.GetDocSyncData(e.ctx, c13DocName(op.Doc)); err2 == nil {
 					c13EmitDocHist(res, sdBefore, &sdAfter)
+					// the write invalidates the principals whose grants it changed, at its own sequence; the first
+					// invalidation since the last rebuild sticks
+					for k, post := range e.invalSeqs() {
+						if k < len(invBefore) && (invBefore[k] != 0 || post != 0) {
+							res.cases = append(res.cases, c13CoqCase{kind: "invalidate", nt: invBefore[k] != 0,
+								coq:  fmt.Sprintf("(CInval %d %d %d)", invBefore[k], sdAfter.Sequence, post),
+								desc: map[string]any{"inval_before": invBefore[k], "write_seq": sdAfter.Sequence, "inval_after": post}})
+						}
+					}
 				}
 			}
 			// every sequence reaches the channel caches before the next operation: no skipped sequences (assumption)
@@ -988,6 +1023,9 @@ func c13Run(t *testing.T, ops []c13Op, emit bool) *c13Result {
 					continue
 				}
 				pp := c13SortPeriods(per)
+				if len(pp) == 0 && (i+ci)%4 != 0 {
+					continue // channels never held: a quarter of them is enough
+				}
 				res.cases = append(res.cases, c13CoqCase{kind: "granted_periods", nt: len(pp) > 1,
 					coq:  fmt.Sprintf("(CPeriods %s %s %d %s)", c13UserCoq(snap.User), c13RolesCoq(snap.Roles), ci+1, c13PairsCoq(pp)),
 					desc: map[string]any{"user": snap.User, "roles": snap.Roles, "channel": cname, "periods": pp}})
@@ -1029,6 +1067,26 @@ func c13Run(t *testing.T, ops []c13Op, emit bool) *c13Result {
 		}
 		res.stats["pulls"]++
 		res.stats["rows"] += len(rows)
+		// which removal / tombstone entries did a grant-triggered back-fill of this request drop?
+		for _, p := range inhP {
+			added := p.B
+			backfill := added > 1 && since.Before(SequenceID{Seq: added}) && added <= snap.Cached && (since.TriggeredBy == 0 || since.TriggeredBy < added)
+			if !backfill {
+				continue
+			}
+			for _, le := range snap.Logs[p.A] {
+				if (le.Rm || le.Del) && le.Seq < added && le.Seq > since.SafeSequence() {
+					if _, held := client[le.Doc]; held {
+						skippedRemoval[le.Doc] = i
+					}
+				}
+			}
+		}
+		if op.Limit > 0 && len(rows) == op.Limit {
+			if last := rows[len(rows)-1]; last.T != 0 && last.S >= last.T {
+				jumps = append(jumps, jump{last.T, last.S})
+			}
+		}
 		before := client.copyOf()
 		vis := tr.visible()
 		for k, r := range rows {
@@ -1060,8 +1118,12 @@ func c13Run(t *testing.T, ops []c13Op, emit bool) *c13Result {
 				res.stats["backfill_rows"]++
 			}
 			client.apply(r)
+			if !r.Princ {
+				delete(skippedRemoval, r.Doc)
+			}
 		}
 		if emit {
+			res.obs = append(res.obs, "("+c13SnapCoq(snap)+", "+c13RowsCoq(rows)+")")
 			res.cases = append(res.cases, c13CoqCase{kind: "feed", nt: len(rows) > 0 && (len(revP) > 0 || since.Seq > 0),
 				coq:  fmt.Sprintf("(CPull %s %d %d %d %s)", c13SnapCoq(snap), since.TriggeredBy, since.Seq, op.Limit, c13RowsCoq(rows)),
 				desc: map[string]any{"snapshot": snap, "since": since.String(), "limit": op.Limit, "rows": rows}})
@@ -1096,27 +1158,45 @@ func c13Run(t *testing.T, ops []c13Op, emit bool) *c13Result {
 			// documents whose current revision the user can see now == documents the client holds
 			for d, rev := range vis {
 				got, ok := client[uint64(d)]
+				cause := ""
+				for _, sd := range snap.Docs {
+					if sd.ID == uint64(d) {
+						for _, j := range jumps {
+							if j.T <= sd.Seq && sd.Seq <= j.S {
+								cause = fmt.Sprintf(" [the row at sequence %d was skipped: a page ended with a revocation row %d:%d whose token is printed as %d]", sd.Seq, j.T, j.S, j.S)
+							}
+						}
+					}
+				}
+				sigSuffix := ""
+				if cause != "" {
+					sigSuffix = "/revocation-token-skips-rows"
+				}
 				if !ok {
-					fail(i, "client_matches_visible", "visible-doc-missing", fmt.Sprintf("op %d: document d%d (channels %v) is visible to the user (channels %v) but the client does not hold it; client %v", i, d, tr.docs[d].chans, c13SortedKeys(held), pr.Client))
+					fail(i, "client_matches_visible", "visible-doc-missing"+sigSuffix, fmt.Sprintf("op %d: document d%d (channels %v) is visible to the user (channels %v) but the client does not hold it; client %v%s", i, d, tr.docs[d].chans, c13SortedKeys(held), pr.Client, cause))
 				} else if got != e.revID(rev) {
-					fail(i, "client_matches_visible", "stale-revision", fmt.Sprintf("op %d: client holds revision #%d of d%d, current is %s (#%d)", i, got, d, rev, e.revID(rev)))
+					fail(i, "client_matches_visible", "stale-revision"+sigSuffix, fmt.Sprintf("op %d: client holds revision #%d of d%d, current is %s (#%d)%s", i, got, d, rev, e.revID(rev), cause))
 				}
 			}
 			for d := range client {
 				if _, ok := vis[int(d)]; !ok {
 					td := tr.docs[int(d)]
-					why := "moved-out"
-					if td != nil && !td.live {
-						why = "deleted"
-					} else if td != nil {
-						// the document did not move out of every channel the user has now or had at the previous pull
-						for _, c := range td.chans {
-							if prevHeld != nil && prevHeld[c] {
-								why = "channel-lost"
+					why, cause := "", ""
+					if at, ok := skippedRemoval[d]; ok {
+						why = "/backfill-skips-removal"
+						cause = fmt.Sprintf(" [the request at op %d back-filled a re-granted channel and dropped the removal / tombstone entry of d%d, which the client held]", at, d)
+					}
+					for _, sd := range snap.Docs {
+						if sd.ID == d {
+							for _, j := range jumps {
+								if j.T <= sd.Seq && sd.Seq <= j.S {
+									why = "/revocation-token-skips-rows"
+									cause = fmt.Sprintf(" [the row at sequence %d was skipped: a page ended with a revocation row %d:%d whose token is printed as %d]", sd.Seq, j.T, j.S, j.S)
+								}
 							}
 						}
 					}
-					fail(i, "client_matches_visible", "stale-doc-"+why, fmt.Sprintf("op %d: client still holds d%d which the user cannot see (document channels %v live=%v, user channels %v): never announced as removed / revoked", i, d, td.chans, td.live, c13SortedKeys(held)))
+					fail(i, "client_matches_visible", "stale-doc"+why, fmt.Sprintf("op %d: client still holds d%d which the user cannot see (document channels %v live=%v, user channels %v): never announced as removed / revoked%s", i, d, td.chans, td.live, c13SortedKeys(held), cause))
 				}
 			}
 			// admin view of the implementation's own state
@@ -1134,16 +1214,65 @@ func c13Run(t *testing.T, ops []c13Op, emit bool) *c13Result {
 				if td := tr.docs[int(d.ID)]; td != nil && !td.live {
 					canSee = false
 				}
-				_, has := client[d.ID]
-				if canSee != has {
-					fail(i, "client_matches_admin_view", fmt.Sprintf("admin-view-differs-has=%v", has), fmt.Sprintf("op %d: d%d: implementation state says visible=%v (active channels %v, inherited %v), client holds=%v", i, d.ID, canSee, d.Active, inhP, has))
+				_, specSee := vis[int(d.ID)]
+				if canSee != specSee {
+					fail(i, "visible_spec_vs_admin_view", "spec-vs-admin-view", fmt.Sprintf("op %d: d%d: the implementation's own state says visible=%v (active channels %v, inherited %v), the specification says %v", i, d.ID, canSee, d.Active, inhP, specSee))
 				}
 			}
 		}
 		prevHeld = held
 	}
 	res.nontri = sawRevoked || sawBackfill
+	// histories with admin grants only are also replayed on the whole-system model (Sys.v): operations in, snapshot
+	// and rows of every pull out
+	if emit && len(res.fails) == 0 || emit && c13OnlyPropertyFailures(res.fails) {
+		adminOnly := true
+		var sops []string
+		for _, op := range ops {
+			ids := func(v []int, off int) string {
+				out := make([]uint64, len(v))
+				for k, x := range v {
+					out[k] = uint64(x + off)
+				}
+				return cqNList(out)
+			}
+			switch op.Kind {
+			case "put":
+				if len(op.Acc) > 0 || len(op.Rol) > 0 {
+					adminOnly = false
+				}
+				sops = append(sops, fmt.Sprintf("SPut %d %s", op.Doc, ids(op.Chans, 1)))
+			case "del":
+				sops = append(sops, fmt.Sprintf("SDel %d", op.Doc))
+			case "uchans":
+				sops = append(sops, "SUChans "+ids(op.Set, 1))
+			case "uroles":
+				sops = append(sops, "SURoles "+ids(op.Set, 0))
+			case "rchans":
+				sops = append(sops, fmt.Sprintf("SRChans %d %s", op.Who, ids(op.Set, 1)))
+			case "delrole":
+				sops = append(sops, fmt.Sprintf("SDelRole %d", op.Who))
+			case "pull":
+				sops = append(sops, fmt.Sprintf("SPull %d", op.Limit))
+			}
+		}
+		if adminOnly {
+			res.cases = append(res.cases, c13CoqCase{kind: "system", nt: res.nontri,
+				coq:  "(CSys " + cqList(sops) + " " + cqList(res.obs) + ")",
+				desc: map[string]any{"ops": ops, "pulls": res.pulls}})
+		}
+	}
 	return res
+}
+
+// failures of the end-to-end property itself do not make the run unusable for the correspondence
+func c13OnlyPropertyFailures(fs []c13Failure) bool {
+	for _, f := range fs {
+		if f.monitor != "client_matches_visible" {
+			return false
+		}
+	}
+	return true
 }
 
 func c13DocEnts(es []ChannelSetEntry) []c13DocEnt {
@@ -1299,6 +1428,29 @@ func (g *c13Gen) put() c13Op {
 
 func (g *c13Gen) next() c13Op {
 	p := g.r.Intn(100)
+	if g.adv {
+		// grant churn on few channels, small pages, few documents: loss / re-grant between pulls, paging inside
+		// back-fills and revocations
+		switch {
+		case p < 18:
+			op := g.put()
+			op.Doc = 1 + g.r.Intn(3)
+			op.Acc, op.Rol = nil, nil // admin grants only: these histories are also replayed on the whole-system model
+			return op
+		case p < 22:
+			return c13Op{Kind: "del", Doc: 1 + g.r.Intn(2)}
+		case p < 40:
+			return c13Op{Kind: "uchans", Set: g.subset(2, 50, 1)}
+		case p < 50:
+			return c13Op{Kind: "uroles", Set: g.subset(c13NRoles, 50, 1)}
+		case p < 62:
+			return c13Op{Kind: "rchans", Who: 1 + g.r.Intn(c13NRoles), Set: g.subset(3, 45, 1)}
+		case p < 68:
+			return c13Op{Kind: "delrole", Who: 1 + g.r.Intn(c13NRoles)}
+		default:
+			return c13Op{Kind: "pull", Limit: 1 + g.r.Intn(2)}
+		}
+	}
 	switch {
 	case p < 30:
 		return g.put()
@@ -1359,8 +1511,288 @@ func c13Corpus() map[string][]c13Op {
 		"paged_backfill":       {P(1, 1), P(2, 1), P(3, 1), uch(1), pull(1), pull(1), pull(1), pull(1)},
 		"paged_revocation":     {uch(1), P(1, 1), P(2, 1), P(3, 1), pull(0), uch(), pull(1), pull(1), pull(1), pull(1)},
 		"loss_and_regrant":     {uch(1), P(1, 1), pull(0), uch(), uch(1), pull(0)},
+		// a revocation, then a grant, then a paged pull: requests resume inside the back-fill (since = trig:seq) after
+		// the revocation rows were delivered
+		"revoke_then_paged_backfill":  {uch(1), P(1, 1), P(2, 2), P(3, 2), pull(0), uch(), uch(2), pull(1), pull(1), pull(1), pull(1), pull(0)},
+		"revoke_grant_same_seq_paged": {uch(1), P(1, 1), P(2, 1), P(3, 2), P(4, 2), pull(0), uch(2), pull(1), pull(1), pull(1), pull(1), pull(1), pull(0)},
+		"role_revoke_then_paged_backfill": {rch(1, 1), uro(1), P(1, 1), P(2, 2), P(3, 2), P(4, 2), pull(0), uro(), rch(2, 2), uro(2), pull(2), pull(1), pull(1), pull(0)},
+		"two_grants_paged":            {P(1, 1), P(2, 1), P(3, 2), P(4, 2), uch(1), pull(1), uch(1, 2), pull(1), pull(1), pull(1), pull(1), pull(0)},
 		"regrant_after_move":   {uch(1), P(1, 1), pull(0), uch(), P(1, 2), uch(1), pull(0)},
 	}
+}
+
+
+// ---------- synthetic principals: the component functions one to one on generated inputs ----------
+// A user and up to three roles are written as raw JSON documents (valid: nothing is rebuilt on load) with arbitrary
+// channel / role sets and histories over sequences 0..14, so that entries ending exactly at the check sequence, at
+// the trigger, roles that are held again after a loss, deleted and missing roles, the star channel ... all occur.
+type c13SynRole struct {
+	exists, deleted bool
+	chans           map[string]uint64
+	hist            map[string][][2]uint64
+	inval           uint64
+}
+
+func c13HistJSON(h map[string][][2]uint64) map[string]any {
+	out := map[string]any{}
+	for k, es := range h {
+		var ents []string
+		for _, e := range es {
+			ents = append(ents, fmt.Sprintf("%d-%d", e[0], e[1]))
+		}
+		out[k] = map[string]any{"updated_at": 4102444800, "entries": ents}
+	}
+	return out
+}
+
+func c13Synthetic(t *testing.T, rec *vRecorder, rnd *vRand, n int) {
+	e := c13NewEnv(t)
+	defer e.close()
+	a := e.db.Authenticator(e.ctx)
+	chanNames := []string{"*", "!", "A", "B", "C", "D"}
+	seqv := func() uint64 { return uint64(rnd.Intn(15)) }
+	genSet := func(names []string, pct int) map[string]uint64 {
+		m := map[string]uint64{}
+		for _, nme := range names {
+			if rnd.Chance(pct) {
+				m[nme] = seqv()
+				if rnd.Chance(80) && m[nme] == 0 {
+					m[nme] = 1
+				}
+			}
+		}
+		return m
+	}
+	genHist := func(names []string, pct int) map[string][][2]uint64 {
+		h := map[string][][2]uint64{}
+		for _, nme := range names {
+			if !rnd.Chance(pct) {
+				continue
+			}
+			k := 1 + rnd.Intn(3)
+			var es [][2]uint64
+			cur := uint64(rnd.Intn(4))
+			for j := 0; j < k; j++ {
+				st := cur + uint64(rnd.Intn(3))
+				en := st + 1 + uint64(rnd.Intn(4))
+				if rnd.Chance(6) {
+					en = st // empty / inverted period (adversarial)
+				}
+				es = append(es, [2]uint64{st, en})
+				cur = en
+			}
+			h[nme] = es
+		}
+		return h
+	}
+	failOnce := map[string]bool{}
+	fail := func(mon, sig string, input any, detail string) {
+		if !failOnce[mon+sig] {
+			failOnce[mon+sig] = true
+			rec.Fail(mon, sig, input, detail)
+		}
+	}
+	for it := 0; it < n; it++ {
+		roleNames := []string{"r1", "r2", "r3"}
+		chanPct := 30 + rnd.Intn(30)
+		if rnd.Chance(90) {
+			chanNames[0] = "*"
+		}
+		names := chanNames[1:]
+		if rnd.Chance(12) {
+			names = chanNames // the star channel takes part
+		}
+		roles := map[string]*c13SynRole{}
+		for _, rn := range roleNames {
+			r := &c13SynRole{exists: rnd.Chance(85)}
+			if r.exists {
+				r.deleted = rnd.Chance(20)
+				r.chans = genSet(names, chanPct)
+				r.hist = genHist(names, 35)
+				if r.deleted && rnd.Chance(80) {
+					r.inval = 1 + seqv()
+				}
+			}
+			roles[rn] = r
+			id := a.DocIDForRole(rn)
+			if !r.exists {
+				_ = e.db.MetadataStore.Delete(e.ctx, id)
+				continue
+			}
+			doc := map[string]any{"name": rn, "all_channels": r.chans, "sequence": 1, "channel_history": c13HistJSON(r.hist)}
+			if r.deleted {
+				doc["deleted"] = true
+			}
+			if r.inval != 0 {
+				doc["channel_inval_seq"] = r.inval
+			}
+			raw, _ := json.Marshal(doc)
+			if err := e.db.MetadataStore.SetRaw(e.ctx, id, 0, nil, raw); err != nil {
+				t.Fatalf("c13 synthetic: SetRaw role: %v", err)
+			}
+		}
+		udoc := map[string]any{"name": "u", "all_channels": genSet(names, chanPct), "sequence": 1 + rnd.Intn(10),
+			"channel_history": c13HistJSON(genHist(names, 40)), "rolesSince": genSet(roleNames, 45),
+			"role_history": c13HistJSON(genHist(roleNames, 45)), "session_uuid": "c13"}
+		raw, _ := json.Marshal(udoc)
+		if err := e.db.MetadataStore.SetRaw(e.ctx, a.DocIDForUser("u"), 0, nil, raw); err != nil {
+			t.Fatalf("c13 synthetic: SetRaw user: %v", err)
+		}
+		usr, err := a.GetUser("u")
+		if err != nil || usr == nil {
+			t.Fatalf("c13 synthetic: GetUser: %v", err)
+		}
+		ust, err := e.userSt(usr)
+		if err != nil {
+			t.Fatalf("c13 synthetic: %v", err)
+		}
+		var rst []c13RoleSt
+		for _, rn := range roleNames {
+			st, err := e.loadRoleSt(a, rn)
+			if err != nil {
+				t.Fatalf("c13 synthetic: %v", err)
+			}
+			if st != nil {
+				rst = append(rst, *st)
+			}
+		}
+		desc := map[string]any{"user": ust, "roles": rst}
+		inh, err := usr.InheritedCollectionChannels(e.col.ScopeName, e.col.Name)
+		if err != nil {
+			t.Fatalf("c13 synthetic: %v", err)
+		}
+		inhP, _ := c13TimedSet(inh, c13ChanID)
+		rec.Case("synthetic", "inherited", fmt.Sprintf("(CInherited %s %s %s)", c13UserCoq(ust), c13RolesCoq(rst), c13PairsCoq(inhP)),
+			map[string]any{"in": desc, "inherited": inhP}, len(rst) > 0)
+		// revoked channels for a handful of resume positions, boundaries included
+		for k := 0; k < 4; k++ {
+			since, low, trig := seqv(), uint64(0), uint64(0)
+			if rnd.Chance(35) {
+				trig = 1 + seqv()
+			}
+			if rnd.Chance(10) {
+				low = 1 + seqv()
+			}
+			revoked, err := usr.RevokedCollectionChannels(e.col.ScopeName, e.col.Name, since, low, trig)
+			if err != nil {
+				t.Fatalf("c13 synthetic: %v", err)
+			}
+			var revP []c13Pair
+			for c, sq := range revoked {
+				id, _ := c13ChanID(c)
+				revP = append(revP, c13Pair{id, sq})
+				if inh.Contains(c) {
+					fail("revoked_sound", "revoked-channel-accessible", map[string]any{"in": desc, "since": since, "low": low, "trig": trig},
+						fmt.Sprintf("channel %s reported revoked at %d but is in the inherited channels %v", c, sq, inhP))
+				}
+			}
+			sort.Slice(revP, func(x, y int) bool { return revP[x].A < revP[y].A })
+			rec.Case("synthetic", "revoked_channels", fmt.Sprintf("(CRevoked %s %s %d %d %d %s)", c13UserCoq(ust), c13RolesCoq(rst), since, low, trig, c13PairsCoq(revP)),
+				map[string]any{"in": desc, "since": since, "low": low, "trig": trig, "revoked": revP}, len(revP) > 0)
+		}
+		col := *e.col
+		col.user = usr
+		for _, cname := range []string{names[rnd.Intn(len(names))], names[rnd.Intn(len(names))]} {
+			cid, _ := c13ChanID(cname)
+			per, err := usr.CollectionChannelGrantedPeriods(e.col.ScopeName, e.col.Name, cname)
+			if err != nil {
+				t.Fatalf("c13 synthetic: %v", err)
+			}
+			pp := c13SortPeriods(per)
+			rec.Case("synthetic", "granted_periods", fmt.Sprintf("(CPeriods %s %s %d %s)", c13UserCoq(ust), c13RolesCoq(rst), cid, c13PairsCoq(pp)),
+				map[string]any{"in": desc, "channel": cname, "periods": pp}, len(pp) > 1)
+			// a synthetic document history
+			var sd SyncData
+			var ents []c13DocEnt
+			for _, dn := range names {
+				if rnd.Chance(45) {
+					st := seqv()
+					en := uint64(0)
+					if rnd.Chance(50) {
+						en = st + 1 + uint64(rnd.Intn(5))
+					}
+					sd.ChannelSet = append(sd.ChannelSet, ChannelSetEntry{Name: dn, Start: st, End: en})
+				}
+				if rnd.Chance(25) {
+					st := seqv()
+					sd.ChannelSetHistory = append(sd.ChannelSetHistory, ChannelSetEntry{Name: dn, Start: st, End: st + 1 + uint64(rnd.Intn(4))})
+				}
+			}
+			ents = append(c13DocEnts(sd.ChannelSet), c13DocEnts(sd.ChannelSetHistory)...)
+			for k := 0; k < 3; k++ {
+				sv := seqv()
+				was, err := col.wasDocInChannelPriorToRevocation(e.ctx, sd, "dx", cname, sv)
+				if err != nil {
+					t.Fatalf("c13 synthetic: %v", err)
+				}
+				rec.Case("synthetic", "was_in_channel", fmt.Sprintf("(CWasIn %s %s %s %d %d %s)", c13DocEntsCoq(ents), c13UserCoq(ust), c13RolesCoq(rst), cid, sv, cqBool(was)),
+					map[string]any{"in": desc, "doc_history": ents, "channel": cname, "since": sv, "result": was}, was)
+			}
+		}
+	}
+}
+
+// ---------- bounded-exhaustive histories ----------
+// Every sequence of length <= L over the alphabet below (1 user, role r1, document d1, channels A and B), run after a
+// fixed prefix that gives the user channel A twice over (directly and through r1), a document in A and a completed pull;
+// every history ends with a page-limited pull and pulls until caught up.
+func c13Alphabet() []c13Op {
+	return []c13Op{
+		{Kind: "put", Doc: 1, Chans: []int{1}},
+		{Kind: "put", Doc: 1, Chans: []int{2}},
+		{Kind: "del", Doc: 1},
+		{Kind: "uchans", Set: []int{1}},
+		{Kind: "uchans"},
+		{Kind: "uroles", Set: []int{1}},
+		{Kind: "uroles"},
+		{Kind: "rchans", Who: 1, Set: []int{1}},
+		{Kind: "rchans", Who: 1},
+		{Kind: "delrole", Who: 1},
+		{Kind: "put", Doc: 2, Chans: []int{2}, Acc: []c13Grant{{V: []int{1}}}},
+		{Kind: "put", Doc: 2, Chans: []int{2}},
+		{Kind: "pull", Limit: 0},
+		{Kind: "pull", Limit: 1},
+	}
+}
+
+func c13ExhaustivePrefix(variant int) []c13Op {
+	pre := []c13Op{{Kind: "rchans", Who: 1, Set: []int{1}}, {Kind: "put", Doc: 1, Chans: []int{1}}}
+	switch variant % 3 {
+	case 0:
+		pre = append(pre, c13Op{Kind: "uchans", Set: []int{1}})
+	case 1:
+		pre = append(pre, c13Op{Kind: "uroles", Set: []int{1}})
+	default:
+		pre = append(pre, c13Op{Kind: "uchans", Set: []int{1}}, c13Op{Kind: "uroles", Set: []int{1}})
+	}
+	return append(pre, c13Op{Kind: "pull"})
+}
+
+// ---------- shrinking: drop operations while the same monitor signature still fails ----------
+func c13Shrink(t *testing.T, ops []c13Op, mon, sig string) []c13Op {
+	still := func(cand []c13Op) bool {
+		res := c13Run(t, cand, false)
+		for _, f := range res.fails {
+			if f.monitor == mon && f.sig == sig {
+				return true
+			}
+		}
+		return false
+	}
+	cur := append([]c13Op{}, ops...)
+	budget := 60
+	for changed := true; changed && budget > 0; {
+		changed = false
+		for i := len(cur) - 1; i >= 0 && budget > 0; i-- {
+			cand := append(append([]c13Op{}, cur[:i]...), cur[i+1:]...)
+			budget--
+			if still(cand) {
+				cur = cand
+				changed = true
+			}
+		}
+	}
+	return cur
 }
 
 // ---------- entry point ----------
@@ -1374,9 +1806,11 @@ func TestVerifC13(t *testing.T) {
 		base.SetUpTestLogging(t, base.LevelError, base.KeyNone)
 	}
 	reported := map[string]bool{}
+	nHist := map[string]int{}
 
-	history := func(stream, kind string, ops []c13Op) {
-		res := c13Run(t, ops, true)
+	history := func(stream, kind string, ops []c13Op, emit bool) {
+		res := c13Run(t, ops, emit)
+		nHist[stream]++
 		for _, c := range res.cases {
 			rec.Case(stream, c.kind, c.coq, c.desc, c.nt)
 		}
@@ -1396,10 +1830,22 @@ func TestVerifC13(t *testing.T) {
 				continue
 			}
 			reported[f.monitor+"/"+f.sig] = true
-			rec.Fail(f.monitor, f.sig, map[string]any{"stream": stream, "ops": ops[:c13Min(len(ops), f.at+1)], "pulls": res.pulls}, f.detail)
+			small := ops
+			if f.at >= 0 && !strings.HasPrefix(f.sig, "op-error") {
+				small = c13Shrink(t, ops[:c13Min(len(ops), f.at+1)], f.monitor, f.sig)
+			}
+			sres := c13Run(t, small, false)
+			detail := f.detail
+			for _, sf := range sres.fails {
+				if sf.monitor == f.monitor && sf.sig == f.sig {
+					detail = sf.detail
+				}
+			}
+			rec.Fail(f.monitor, f.sig, map[string]any{"stream": stream, "ops": small, "pulls": sres.pulls, "original_length": len(ops)}, detail)
 		}
 	}
 
+	// (i) corpus: one scripted scenario per clause
 	corpus := c13Corpus()
 	names := make([]string, 0, len(corpus))
 	for n := range corpus {
@@ -1407,14 +1853,67 @@ func TestVerifC13(t *testing.T) {
 	}
 	sort.Strings(names)
 	for _, n := range names {
-		history("corpus", "corpus_"+n, corpus[n])
+		history("corpus", "corpus_"+n, corpus[n], true)
 	}
-	nRand := vBudget(40, 400)
+
+	// (ii) bounded-exhaustive
+	maxLen := 1
+	if vThorough() {
+		maxLen = 2
+	}
+	if os.Getenv("VERIF_BUDGET") != "" {
+		maxLen = 2 // the failing-input search
+	}
+	if v := os.Getenv("C13_EXLEN"); v != "" {
+		maxLen, _ = strconv.Atoi(v)
+	}
+	alpha := c13Alphabet()
+	nEx := 0
+	var seq []c13Op
+	var enum func(depth int)
+	enum = func(depth int) {
+		if depth > 0 {
+			for variant := 0; variant < 3; variant++ {
+				ops := append(c13ExhaustivePrefix(variant), seq...)
+				ops = append(ops, c13Op{Kind: "pull", Limit: 1}, c13Op{Kind: "pull", Limit: 1}, c13Op{Kind: "pull"})
+				// the Coq cases of one variant in three are enough in the quick tier; the monitors run on all
+				history("exhaustive", "exhaustive", ops, vThorough() || (nEx+variant)%3 == 0)
+			}
+			nEx++
+		}
+		if depth == maxLen {
+			return
+		}
+		for _, a := range alpha {
+			seq = append(seq, a)
+			enum(depth + 1)
+			seq = seq[:len(seq)-1]
+		}
+	}
+	enum(0)
+	rec.Extra("exhaustive", true)
+	rec.Extra("exhaustive_scope", fmt.Sprintf("all %d sequences of length 1..%d over %d operations (1 user, role r1, documents d1 d2, channels A B), after each of 3 prefixes (channel A held directly / through r1 / both; d1 in A; completed pull), followed by two page-limited pulls and a full pull", nEx, maxLen, len(alpha)))
+
+	// (iii) seeded random histories
+	nRand := vBudget(30, 400)
 	if v := os.Getenv("C13_NRAND"); v != "" {
 		nRand, _ = strconv.Atoi(v)
 	}
 	for i := 0; i < nRand; i++ {
-		history("random", "random", c13RandomHistory(rnd, false))
+		history("random", "random", c13RandomHistory(rnd, false), true)
+	}
+	for i := 0; i < nRand/2; i++ {
+		history("adversarial", "adversarial", c13RandomHistory(rnd, true), true)
+	}
+
+	// (iv) the component functions on synthetic principals
+	nSyn := vBudget(120, 1500)
+	if v := os.Getenv("C13_NSYN"); v != "" {
+		nSyn, _ = strconv.Atoi(v)
+	}
+	c13Synthetic(t, rec, rnd, nSyn)
+	if b, err := json.Marshal(map[string]any{"histories": nHist, "synthetic_principals": nSyn}); err == nil {
+		rec.Extra("streams_detail", string(b))
 	}
 }
 
